@@ -5,18 +5,25 @@
    strings) / read_python.
 
    What is a model of what:
-   * the JSON *text* layer (json.dump's printer, json.loads' parser) is not modelled: the model works
-     on JSON trees ([jtree]); `sort_keys=True` only reorders object members, which no dict
-     comparison can see, so members are kept in insertion order;
-   * base64 + ndarray.tobytes / np.frombuffer are abstracted: the base64 text of the C-order buffer
-     of an array is the leaf [JB64 dt elems] (a str on the Python side: [PB64]); reading it back with
-     the same dtype yields the elements, with another dtype is not modelled ([None]);
-   * the csv text layer (quoting, delimiters, line ends) is not modelled: a file is the delimiter the
-     writer used plus the list of rows of cell texts; what *is* modelled is the delimiter detection
-     of the readers, which decides whether the file is split on the character it was written with;
+   * the JSON *text* layer (json.dump's printer with sort_keys, json.loads' parser) is an ORACLE: a
+     record [textlayer] of functions jtree <-> text; the theorems assume exactly "parsing the printed
+     text of a tree whose object members are sorted gives the tree back, and the text is not empty".
+     A Python dict is represented by its association list sorted by key (dict equality cannot see
+     the order), so that sort_keys=True is the identity on the represented trees;
+   * base64 and ndarray buffer <-> elements are ORACLES: a record [codec] with tobytes (the C-order
+     buffer np.ascontiguousarray(obj).data of an array of a dtype), frombuffer (np.frombuffer),
+     b64enc / b64dec; the theorems assume exactly b64dec (b64enc b) = b and
+     frombuffer dt (tobytes dt el) = el for elements that fit the dtype;
+   * the csv text layer (quoting, delimiters, line ends) is an ORACLE: a record [csvlayer]; assumed:
+     reading with the delimiter the file was written with gives the written cells back (cells
+     without NUL / CR / LF), and the first line of the file contains a tab iff the writer's
+     delimiter is tab and the header has >= 2 cells, or a header cell contains a tab.  What *is*
+     modelled is the delimiter detection of the readers, the header/field logic and number typing;
    * int(), float(), str(int), '%.nf' % float are modelled on character lists (ASCII); repr(float)
      is abstract ([CRepr f], parsed back to f);
-   * exec/eval of `repr` text in read_python is abstract ([ERepr v] evaluates to v for plain values). *)
+   * repr(str) and the evaluation of a string literal are modelled on character lists (read_python /
+     write_python); str() of the other parameter values and its evaluation by exec are abstract
+     ([EOther v] evaluates to v for plain values). *)
 From Coq Require Import ZArith List Bool String Ascii.
 From PV Require Import Base.NpSearch Base.NpSort.
 Import ListNotations.
@@ -131,7 +138,6 @@ Inductive pyval :=
 | PInt (z : Z)
 | PFloat (f : ftok)
 | PStr (s : string)
-| PB64 (dt : dtype) (elems : list scalar)      (* a str: the base64 text of a buffer of dt items *)
 | PList (l : list pyval)
 | PDict (l : list (string * pyval))
 | PNp (dt : dtype) (x : scalar)                 (* np.generic *)
@@ -143,7 +149,6 @@ Inductive jtree :=
 | JInt (z : Z)
 | JFloat (f : ftok)
 | JStr (s : string)
-| JB64 (dt : dtype) (elems : list scalar)
 | JList (l : list jtree)
 | JObj (l : list (string * jtree)).
 
@@ -199,6 +204,38 @@ Definition k_dtype : string := "dtype".
 Definition k_shape : string := "shape".
 Definition k_qba : string := "__qbytearray__".
 
+(* ---- oracles: buffers and base64 ---- *)
+(* bytes objects are lists of characters *)
+Record codec := mkcodec {
+  tobytes : dtype -> list scalar -> list ascii;          (* np.ascontiguousarray(obj).data, elements in C order *)
+  frombuffer : dtype -> list ascii -> option (list scalar);   (* np.frombuffer(data, dtype) *)
+  b64enc : list ascii -> string;                         (* base64.b64encode(b).decode('utf8') *)
+  b64dec : string -> option (list ascii)                 (* base64.b64decode(s) *)
+}.
+
+(* ---- oracle: the JSON text layer ---- *)
+Record textlayer (T : Type) := mktext {
+  jprint : jtree -> T;                                   (* json.dump(..., indent=2, sort_keys=True) *)
+  jparse : T -> option jtree;                            (* json.loads *)
+  tempty : T -> bool                                     (* not contents *)
+}.
+Arguments jprint {T} _ _.
+Arguments jparse {T} _ _.
+Arguments tempty {T} _ _.
+
+Definition zprod (l : list Z) : Z := fold_right Z.mul 1 l.
+
+Definition ints_of (l : list pyval) : option (list Z) :=
+  mapM (fun v => match v with PInt z => Some z | _ => None end) l.
+
+(* .reshape(shape); a -1 entry in shape is not modelled *)
+Definition reshape (dt : dtype) (shape : list Z) (el : list scalar) : option pyval :=
+  if forallb (fun x => 0 <=? x) shape && (zprod shape =? zlen el)
+  then Some (PArr dt shape LC el) else None.
+
+Section Json.
+Variable C : codec.
+
 (* json.dump(..., cls=_CustomEncoder): built-in types are printed directly, everything else goes
    through default() and the result is encoded again *)
 Fixpoint encode (v : pyval) : jtree :=
@@ -208,35 +245,28 @@ Fixpoint encode (v : pyval) : jtree :=
   | PInt z => JInt z
   | PFloat f => JFloat f
   | PStr s => JStr s
-  | PB64 dt el => JB64 dt el
   | PList l => JList (map encode l)
   | PDict l => JObj (map (fun kv => (fst kv, encode (snd kv))) l)
   | PNp dt x => scalar_j x                                      (* obj.item() *)
   | PArr dt shape lay el =>
       if small1d shape then JList (map scalar_j el)             (* obj.tolist() *)
-      else JObj [(k_ndarray, JB64 dt el);                       (* np.ascontiguousarray(obj).data *)
-                 (k_dtype, JStr (dtype_name dt));
-                 (k_shape, JList (map JInt shape))]
+      else JObj [(k_ndarray, JStr (b64enc C (tobytes C dt el)));   (* b64encode(ascontiguousarray(obj).data) *)
+                 (k_dtype, JStr (dtype_name dt));               (* str(obj.dtype) *)
+                 (k_shape, JList (map JInt shape))]             (* obj.shape *)
   end.
-
-Definition zprod (l : list Z) : Z := fold_right Z.mul 1 l.
-
-Definition ints_of (l : list pyval) : option (list Z) :=
-  mapM (fun v => match v with PInt z => Some z | _ => None end) l.
-
-(* np.frombuffer(data, dtype).reshape(shape); a -1 entry in shape is not modelled *)
-Definition reshape (dt : dtype) (shape : list Z) (el : list scalar) : option pyval :=
-  if forallb (fun x => 0 <=? x) shape && (zprod shape =? zlen el)
-  then Some (PArr dt shape LC el) else None.
 
 (* _json_custom_hook, called by the parser on every JSON object after its members were decoded *)
 Definition hook (d : list (string * pyval)) : option pyval :=
   if has_key String.eqb k_ndarray d then
     match lookup String.eqb k_ndarray d, lookup String.eqb k_dtype d, lookup String.eqb k_shape d with
-    | Some (PB64 dt el), Some (PStr nm), Some (PList sh) =>
-        match dtype_of_name nm, ints_of sh with
-        | Some dt', Some shape => if dtype_eqb dt dt' then reshape dt' shape el else None
-        | _, _ => None
+    | Some (PStr s), Some (PStr nm), Some (PList sh) =>
+        match b64dec C s, dtype_of_name nm, ints_of sh with
+        | Some data, Some dt, Some shape =>
+            match frombuffer C dt data with
+            | Some el => reshape dt shape el
+            | None => None
+            end
+        | _, _, _ => None
         end
     | _, _, _ => None                                           (* KeyError / binascii.Error / TypeError *)
     end
@@ -250,7 +280,6 @@ Fixpoint decode (t : jtree) : option pyval :=
   | JInt z => Some (PInt z)
   | JFloat f => Some (PFloat f)
   | JStr s => Some (PStr s)
-  | JB64 dt el => Some (PB64 dt el)
   | JList l => option_map PList (mapM decode l)
   | JObj l =>
       match mapM (fun kv => option_map (pair (fst kv)) (decode (snd kv))) l with
@@ -259,17 +288,28 @@ Fixpoint decode (t : jtree) : option pyval :=
       end
   end.
 
-(* save_json: data = _stringify_keys(data); json.dump(data, ...) *)
+(* save_json: data = _stringify_keys(data); json.dump(data, ...) -- the tree handed to the printer *)
 Definition save_json (d : list (key * pyval)) : jtree :=
   encode (PDict (dict_of_list String.eqb (map (fun kv => (stringify_key (fst kv), snd kv)) d))).
 
-(* load_json: out = json.loads(contents, object_hook=...); return _intify_keys(out)
-   (the `if not contents: return {}` branch needs an empty file, which save_json never writes) *)
+(* load_json: out = json.loads(contents, object_hook=...); return _intify_keys(out) *)
 Definition load_json (t : jtree) : option (list (key * pyval)) :=
   match decode t with
   | Some (PDict d) => Some (dict_of_list key_eqb (map (fun kv => (intify_key (fst kv), snd kv)) d))
   | _ => None                                                   (* assert isinstance(d, dict) *)
   end.
+
+(* the same through the file text *)
+Context {T : Type}.
+Variable L : textlayer T.
+Definition save_json_text (d : list (key * pyval)) : T := jprint L (save_json d).
+Definition load_json_text (contents : T) : option (list (key * pyval)) :=
+  if tempty L contents then Some []                              (* if not contents: return {} *)
+  else match jparse L contents with
+       | Some t => load_json t
+       | None => None                                            (* JSONDecodeError *)
+       end.
+End Json.
 
 (* ---------------------------------------------------------------------------------------------- *)
 (* number <-> text                                                                                *)
@@ -440,8 +480,15 @@ Definition delim_eqb (a b : delim) : bool :=
 Inductive value := VNone | VInt (z : Z) | VFloat (f : ftok) | VStr (s : string).
 Definition row := list (string * value).
 
-(* what csv.writer wrote: the delimiter chosen from the path suffix, and the rows of cell texts *)
-Record tfile := mkfile { t_delim : delim; t_lines : list (list ctext) }.
+(* ---- oracle: the csv text layer ---- *)
+Record csvlayer (T : Type) := mkcsv {
+  csv_write : delim -> list (list ctext) -> T;     (* csv.writer(f, delimiter=d).writerow/writerows; no row = empty file *)
+  csv_read : delim -> T -> option (list (list ctext));   (* list(csv.reader(f, delimiter=d)) *)
+  first_line_tab : T -> bool                       (* '\t' in f.readline() *)
+}.
+Arguments csv_write {T} _ _ _.
+Arguments csv_read {T} _ _ _.
+Arguments first_line_tab {T} _ _.
 
 (* one cell of write_tsv: _pretty_floats(row.get(field, None), n), then csv's str() *)
 Definition render (n : Z) (v : value) : ctext :=
@@ -488,29 +535,14 @@ Definition fields_of (first : option string) (excl : list string) (rows : list r
 Definition get_cell (f : string) (r : row) : value :=
   match lookup String.eqb f r with Some v => v | None => VNone end.
 
-Definition write_tsv (dl : delim) (first : option string) (excl : list string) (n : Z)
-           (rows : list row) : tfile :=
-  match rows with
-  | [] => mkfile dl []                                          (* `if not data: return`: empty file *)
-  | _ => let fs := fields_of first excl rows in
-         mkfile dl (map CT fs :: map (fun r => map (fun f => render n (get_cell f r)) fs) rows)
-  end.
-
 Definition has_tab (t : ctext) : bool :=
   match t with CT s => existsb (Ascii.eqb ch_tab) (s2l s) | CRepr _ => false end.
-
-(* delimiter = '\t' if '\t' in f.readline() else ','  -- the first line is the header row *)
-Definition detect (f : tfile) : delim :=
-  match t_lines f with
-  | [] => Comma
-  | h :: _ => if (delim_eqb (t_delim f) Tab && (2 <=? zlen h)) || existsb has_tab h then Tab else Comma
-  end.
-
 Definition is_empty_text (t : ctext) : bool :=
   match t with CT s => String.eqb s "" | CRepr _ => false end.
 Definition text_str (t : ctext) : option string :=
   match t with CT s => Some s | CRepr _ => None end.
 
+(* {k: _try_make_number(v) for k, v in zip(field_names, row) if v != ''} as a sequence of assignments *)
 Fixpoint zip_cells (names : list string) (r : list ctext) : list (string * cell) :=
   match names, r with
   | k :: names', v :: r' =>
@@ -518,60 +550,162 @@ Fixpoint zip_cells (names : list string) (r : list ctext) : list (string * cell)
   | _, _ => []
   end.
 
-(* read_tsv on an existing file.  None = an exception, or a file split on a character other than
-   the one it was written with (then the csv text layer, which is not modelled, decides) *)
-Definition read_tsv (f : tfile) : option (list (list (string * cell))) :=
-  if negb (delim_eqb (detect f) (t_delim f)) then None
-  else match t_lines f with
-       | [] => None                                             (* next(reader): StopIteration *)
-       | h :: rows =>
-           match mapM text_str h with
-           | Some names => Some (map (fun r => dict_of_list String.eqb (zip_cells names r)) rows)
-           | None => None
-           end
-       end.
+Section Tables.
+Context {T : Type}.
+Variable V : csvlayer T.
+
+(* write_tsv; the delimiter comes from the path suffix *)
+Definition write_tsv (dl : delim) (first : option string) (excl : list string) (n : Z)
+           (rows : list row) : T :=
+  match rows with
+  | [] => csv_write V dl []                                     (* `if not data: return`: empty file *)
+  | _ => let fs := fields_of first excl rows in
+         csv_write V dl (map CT fs :: map (fun r => map (fun f => render n (get_cell f r)) fs) rows)
+  end.
+
+(* delimiter = '\t' if '\t' in f.readline() else ',' *)
+Definition detect (f : T) : delim := if first_line_tab V f then Tab else Comma.
+
+(* read_tsv on an existing file.  None = an exception *)
+Definition read_tsv (f : T) : option (list (list (string * cell))) :=
+  match csv_read V (detect f) f with
+  | Some (h :: rows) =>                                         (* field_names = list(next(reader)) *)
+      match mapM text_str h with
+      | Some names => Some (map (fun r => dict_of_list String.eqb (zip_cells names r)) rows)
+      | None => None
+      end
+  | _ => None                                                   (* next(reader): StopIteration / csv.Error *)
+  end.
 
 (* _write_tsv_simple: rows sorted by cluster id *)
-Definition write_simple (dl : delim) (field : string) (data : list (Z * value)) : tfile :=
-  mkfile dl ([CT "cluster_id"; CT field] ::
-             map (fun kv => [CT (l2s (show_int (fst kv))); render_raw (snd kv)]) (isort data)).
+Definition write_simple (dl : delim) (field : string) (data : list (Z * value)) : T :=
+  csv_write V dl ([CT "cluster_id"; CT field] ::
+                  map (fun kv => [CT (l2s (show_int (fst kv))); render_raw (snd kv)]) (isort data)).
 
 (* _read_tsv_simple on an existing file *)
-Definition read_simple (f : tfile) : option (string * list (Z * cell)) :=
-  if negb (delim_eqb (detect f) (t_delim f)) then None
-  else match t_lines f with
-       | [_; CT field] :: rows =>                               (* _, field_name = next(reader) *)
-           match mapM (fun r => match r with
-                                | [CT a; v] => match py_int (s2l a) with     (* cluster_id, value = row *)
-                                               | Some id => Some (id, try_make_number v)
-                                               | None => None
-                                               end
-                                | _ => None
-                                end) rows with
-           | Some kvs => Some (field, dict_of_list Z.eqb kvs)
-           | None => None
-           end
-       | _ => None
-       end.
+Definition read_simple (f : T) : option (string * list (Z * cell)) :=
+  match csv_read V (detect f) f with
+  | Some ([_; CT field] :: rows) =>                             (* _, field_name = next(reader) *)
+      match mapM (fun r => match r with
+                           | [CT a; v] => match py_int (s2l a) with     (* cluster_id, value = row *)
+                                          | Some id => Some (id, try_make_number v)
+                                          | None => None
+                                          end
+                           | _ => None
+                           end) rows with
+      | Some kvs => Some (field, dict_of_list Z.eqb kvs)
+      | None => None
+      end
+  | _ => None
+  end.
+End Tables.
+
+(* the reference csv layer used by the correspondence: the text of a file is the delimiter it was
+   written with plus its rows of cells; read with another delimiter: not modelled *)
+Record tfile := mkfile { t_delim : delim; t_lines : list (list ctext) }.
+Definition ref_csv : csvlayer tfile :=
+  mkcsv tfile mkfile
+        (fun dl f => if delim_eqb dl (t_delim f) then Some (t_lines f) else None)
+        (fun f => match t_lines f with
+                  | [] => false
+                  | h :: _ => (delim_eqb (t_delim f) Tab && (2 <=? zlen h)) || existsb has_tab h
+                  end).
 
 (* ---------------------------------------------------------------------------------------------- *)
 (* parameter files                                                                                *)
 (* ---------------------------------------------------------------------------------------------- *)
-(* the right-hand side of one assignment: repr(v) (repaired write_python: strings too) *)
-Inductive pexpr := ERepr (v : pyval).
+(* ---- repr(str) on characters (str as its UTF-8 bytes; bytes >= 128 belong to printable non-ASCII
+   characters and are copied -- Python escapes the non-printable ones, which evaluates to the same
+   string) ---- *)
+Definition ch_sq : ascii := chr 39.
+Definition ch_dq : ascii := chr 34.
+Definition ch_bs : ascii := chr 92.
+Definition hexchr (d : Z) : ascii := if d <? 10 then chr (48 + d) else chr (87 + d).
+Definition hexval (c : ascii) : option Z :=
+  let z := code c in
+  if (48 <=? z) && (z <=? 57) then Some (z - 48)
+  else if (97 <=? z) && (z <=? 102) then Some (z - 87)
+  else if (65 <=? z) && (z <=? 70) then Some (z - 55)
+  else None.
+
+(* the quote repr chooses: double quotes iff the string has a single quote and no double quote *)
+Definition repr_quote (s : list ascii) : ascii :=
+  if existsb (Ascii.eqb ch_sq) s && negb (existsb (Ascii.eqb ch_dq) s) then ch_dq else ch_sq.
+
+Definition esc_char (q c : ascii) : list ascii :=
+  let z := code c in
+  if Ascii.eqb c q || Ascii.eqb c ch_bs then [ch_bs; c]
+  else if z =? 9 then [ch_bs; "t"%char]
+  else if z =? 10 then [ch_bs; "n"%char]
+  else if z =? 13 then [ch_bs; "r"%char]
+  else if (z <? 32) || (z =? 127) then [ch_bs; "x"%char; hexchr (z / 16); hexchr (z mod 16)]
+  else [c].
+
+Definition repr_str (s : list ascii) : list ascii :=
+  let q := repr_quote s in q :: flat_map (esc_char q) s ++ [q].
+
+(* evaluation of a (non-raw, single-line) string literal: the body after the opening quote [q], up to
+   and including the closing quote, which must end the text.  None = SyntaxError (raw line break,
+   unterminated literal, text after the literal) or an escape that is not modelled (octal, \a \b \f
+   \v \N \u \U, line continuation, unknown escapes, \x80..\xff) *)
+Fixpoint lit_body (q : ascii) (l : list ascii) : option (list ascii) :=
+  match l with
+  | [] => None
+  | c :: r =>
+      if Ascii.eqb c q then match r with [] => Some [] | _ => None end
+      else if Ascii.eqb c ch_bs then
+        match r with
+        | e :: r' =>
+            let ez := code e in
+            if (ez =? 92) || (ez =? 39) || (ez =? 34) then option_map (cons e) (lit_body q r')
+            else if ez =? 116 then option_map (cons (chr 9)) (lit_body q r')
+            else if ez =? 110 then option_map (cons (chr 10)) (lit_body q r')
+            else if ez =? 114 then option_map (cons (chr 13)) (lit_body q r')
+            else if ez =? 120 then
+              match r' with
+              | h1 :: h2 :: r'' =>
+                  match hexval h1, hexval h2 with
+                  | Some a, Some b => if 16 * a + b <? 128
+                                      then option_map (cons (chr (16 * a + b))) (lit_body q r'')
+                                      else None
+                  | _, _ => None
+                  end
+              | _ => None
+              end
+            else None
+        | [] => None
+        end
+      else if (code c =? 10) || (code c =? 13) then None
+      else option_map (cons c) (lit_body q r)
+  end.
+Definition eval_str_lit (l : list ascii) : option (list ascii) :=
+  match l with
+  | q :: r => if Ascii.eqb q ch_sq || Ascii.eqb q ch_dq then lit_body q r else None
+  | [] => None
+  end.
+
+(* the right-hand side of one assignment `k = ...`: the text of a string literal (write_python calls
+   repr on str values), or str(v) of another value (abstract) *)
+Inductive pexpr := ELit (text : list ascii) | EOther (v : pyval).
 
 Definition finite (f : ftok) : bool := match f with FFin _ _ _ => true | _ => false end.
-(* values whose repr is a Python expression that evaluates to an equal value *)
+(* values whose str() is a Python expression that evaluates to an equal value *)
 Fixpoint plain (v : pyval) : bool :=
   match v with
   | PNone | PBool _ | PInt _ | PStr _ => true
-  | PFloat f => finite f                                        (* repr gives nan / inf: NameError *)
+  | PFloat f => finite f                                        (* str gives nan / inf: NameError *)
   | PList l => forallb plain l
   | PDict l => forallb (fun kv => plain (snd kv)) l
-  | PB64 _ _ | PNp _ _ | PArr _ _ _ _ => false
+  | PNp _ _ | PArr _ _ _ _ => false
   end.
 Definition eval_expr (e : pexpr) : option pyval :=
-  match e with ERepr v => if plain v then Some v else None end.
+  match e with
+  | ELit t => option_map (fun l => PStr (l2s l)) (eval_str_lit t)
+  | EOther v => match v with
+                | PStr _ => None                                (* str(v) of a str is not a literal *)
+                | _ => if plain v then Some v else None
+                end
+  end.
 
 Definition is_alpha_ (c : ascii) : bool :=
   let z := code c in ((65 <=? z) && (z <=? 90)) || ((97 <=? z) && (z <=? 122)) || (z =? 95).
@@ -586,9 +720,12 @@ Definition keywords : list string :=
    "is"; "lambda"; "nonlocal"; "not"; "or"; "pass"; "raise"; "return"; "try"; "while"; "with"; "yield"])%string.
 Definition lower_str (s : string) : string := l2s (map lower (s2l s)).
 
-(* write_python: one line `k = repr(v)` per item *)
+(* write_python: one line `k = v` per item, v = repr(v) for a str, str(v) otherwise *)
 Definition write_python (d : list (string * pyval)) : list (string * pexpr) :=
-  map (fun kv => (fst kv, ERepr (snd kv))) d.
+  map (fun kv => (fst kv, match snd kv with
+                          | PStr s => ELit (repr_str (s2l s))
+                          | v => EOther v
+                          end)) d.
 
 (* read_python: exec() the lines into a dict, then lower-case the keys *)
 Definition read_python (lines : list (string * pexpr)) : option (list (string * pyval)) :=
